@@ -805,6 +805,44 @@ impl RScenario {
                         run_tree::<average::Max, _>(tree, &data, &no_faults, &mut h).map(|_| ())
                     });
                 }
+                // a parallel collect is a history of add (fold) and merge (reduce) as well: the same
+                // data and tree through rayon's real consumers, by value and by reference
+                let no_tails = tree.nodes.iter().all(|n| match n {
+                    Node::Join { tail, .. } => tail.is_empty(),
+                    _ => true,
+                });
+                if res.is_ok() && no_tails {
+                    let (mut mn, mut mx) = (f64::INFINITY, f64::NEG_INFINITY);
+                    for &x in data.iter().filter(|x| !x.is_nan()) {
+                        mn = mn.min(x);
+                        mx = mx.max(x);
+                    }
+                    st.bump("probe.parallel_collect_min_max");
+                    res = guarded("Min", || {
+                        for (how, got) in [
+                            ("collect over f64", crate::drv_rayon::collect_val::<average::Min>(tree, &data, crate::drv_rayon::Adaptor::None).min()),
+                            ("collect over &f64", crate::drv_rayon::collect_ref::<average::Min>(tree, &data, crate::drv_rayon::Adaptor::None).min()),
+                        ] {
+                            if !(got == mn) {
+                                return Err(Viol::new("Min:Min:parallel_collect", format!("parallel {}: min() = {} but the exact minimum of the non-NaN observations is {}", how, hex(got), hex(mn))));
+                            }
+                        }
+                        Ok(())
+                    });
+                    if res.is_ok() {
+                        res = guarded("Max", || {
+                            for (how, got) in [
+                                ("collect over f64", crate::drv_rayon::collect_val::<average::Max>(tree, &data, crate::drv_rayon::Adaptor::None).max()),
+                                ("collect over &f64", crate::drv_rayon::collect_ref::<average::Max>(tree, &data, crate::drv_rayon::Adaptor::None).max()),
+                            ] {
+                                if !(got == mx) {
+                                    return Err(Viol::new("Max:Max:parallel_collect", format!("parallel {}: max() = {} but the exact maximum of the non-NaN observations is {}", how, hex(got), hex(mx))));
+                                }
+                            }
+                            Ok(())
+                        });
+                    }
+                }
                 res.err()
             }
             RProp::C17Scalar => {
@@ -1104,7 +1142,7 @@ impl RScenario {
             n = rng.range(3, 64);
         }
         // rarely: a long sequence, so that merged chunks pass 2^16 elements
-        let long = matches!(self.prop, RProp::C02 | RProp::C09 | RProp::C08) && rng.below(8000) == 0;
+        let long = matches!(self.prop, RProp::C02 | RProp::C09 | RProp::C08) && rng.below(6000) == 0;
         if long {
             // log-uniform over 10^4 .. 3*10^5 (10^6 in thorough)
             let hi: f64 = match tier {
